@@ -1,3 +1,221 @@
 package main
 
-func c11GuardRules(c *c11ctx) {}
+import (
+	"fmt"
+	"go/types"
+	"golang.org/x/tools/go/ssa"
+	"sort"
+	"strings"
+)
+
+// requestHandlers: the RPC handlers whose arguments are request content in the sense of
+// C11: those that reach the queueing function or invoke a method of the data-source
+// interface (mix requests bypass the queue by design).
+func requestHandlers(p *Prog, rv *Rendezvous) []*ssa.Function {
+	var out []*ssa.Function
+	for _, h := range rv.Handlers {
+		hit, _ := p.Reaches(h, func(f *ssa.Function) bool { return f == rv.Queue }, 3)
+		if !hit {
+			// direct interface call on a DataSource-typed value
+			Instrs(h, func(in ssa.Instruction) {
+				cc := CallOf(in)
+				if cc != nil && cc.IsInvoke() && typeName(cc.Value.Type()) == "DataSource" {
+					hit = true
+				}
+			})
+		}
+		if hit {
+			out = append(out, h)
+		}
+	}
+	return out
+}
+
+// requestPath: functions call-reachable (not through `go`) from request closures and handlers.
+func requestPath(p *Prog, rv *Rendezvous) map[*ssa.Function]bool {
+	seen := map[*ssa.Function]bool{}
+	var visit func(f *ssa.Function)
+	visit = func(f *ssa.Function) {
+		if f == nil || seen[f] || f.Blocks == nil {
+			return
+		}
+		pk := fnPkg(f)
+		if pk == nil || !strings.HasPrefix(pk.Path(), modPath) {
+			return
+		}
+		seen[f] = true
+		Instrs(f, func(in ssa.Instruction) {
+			if _, isGo := in.(*ssa.Go); isGo {
+				return
+			}
+			if CallOf(in) == nil {
+				return
+			}
+			for _, c := range p.callees(in) {
+				visit(c)
+			}
+			if mc, ok := in.(*ssa.MakeClosure); ok {
+				_ = mc
+			}
+		})
+	}
+	for _, h := range requestHandlers(p, rv) {
+		visit(h)
+	}
+	for _, c := range rv.Closures {
+		visit(c)
+	}
+	return seen
+}
+
+// perChannelTypes: the struct type processed per channel by the block fan-out (the parameter
+// type of the function started with `go` inside the block-processing method) and every struct
+// type it contains by value.  Fields of these types hold the trigger / record-length
+// configuration consumed by the trigger arithmetic, which is the subject of C02/C08/C13.
+func perChannelTypes(p *Prog) map[string]bool {
+	out := map[string]bool{}
+	ps := p.Func("", "AnySource", "ProcessSegments")
+	if ps == nil {
+		return out
+	}
+	var add func(t types.Type)
+	add = func(t types.Type) {
+		if pt, ok := t.(*types.Pointer); ok {
+			t = pt.Elem()
+		}
+		n, ok := t.(*types.Named)
+		if !ok {
+			return
+		}
+		st, ok := n.Underlying().(*types.Struct)
+		if !ok || out[ownerName(n)] {
+			return
+		}
+		if n.Obj().Pkg() == nil || !strings.HasPrefix(n.Obj().Pkg().Path(), modPath) {
+			return
+		}
+		out[ownerName(n)] = true
+		for i := 0; i < st.NumFields(); i++ {
+			ft := st.Field(i).Type()
+			if _, isPtr := ft.(*types.Pointer); isPtr {
+				continue
+			}
+			add(ft)
+		}
+	}
+	for _, a := range Anons(ps) {
+		for _, prm := range a.Params {
+			add(prm.Type())
+		}
+	}
+	return out
+}
+
+func requestTaint(p *Prog, rv *Rendezvous) *Taint {
+	t := NewTaint(p)
+	rp := requestPath(p, rv)
+	pct := perChannelTypes(p)
+	t.StoreScope = func(fn *ssa.Function) bool { return rp[fn] }
+	t.LoadScope = func(fn *ssa.Function, k FieldKey) bool { return rp[fn] || !pct[k.Owner] }
+	for _, h := range requestHandlers(p, rv) {
+		if len(h.Params) >= 2 {
+			t.SeedParam(h.Params[1], "argument of RPC handler "+FuncName(h))
+		}
+	}
+	t.Run()
+	return t
+}
+
+// runPhaseFuncs: everything reachable from the core loop, the request closures and every
+// function started with `go` in library code (producers, writers, updaters).
+func runPhaseFuncs(p *Prog, rv *Rendezvous) map[*ssa.Function]bool {
+	seen := map[*ssa.Function]bool{}
+	var visit func(f *ssa.Function)
+	visit = func(f *ssa.Function) {
+		if f == nil || seen[f] || f.Blocks == nil {
+			return
+		}
+		pk := fnPkg(f)
+		if pk == nil || !strings.HasPrefix(pk.Path(), modPath) {
+			return
+		}
+		seen[f] = true
+		Instrs(f, func(in ssa.Instruction) {
+			if CallOf(in) == nil {
+				return
+			}
+			for _, c := range p.callees(in) {
+				visit(c)
+			}
+		})
+	}
+	if cl := p.Func("", "", "CoreLoop"); cl != nil {
+		visit(cl)
+	}
+	if rv != nil {
+		for _, c := range rv.Closures {
+			visit(c)
+		}
+	}
+	for _, gs := range p.GoStarts() {
+		// goroutines started by the start phase run during the run phase
+		for _, c := range gs.Callees {
+			visit(c)
+		}
+	}
+	return seen
+}
+
+func sinkContainer(s Sink) string {
+	if s.X == nil {
+		return ""
+	}
+	if _, f, _, ok := FieldOf(s.X); ok {
+		return f
+	}
+	if sl, ok := s.X.(*ssa.Slice); ok {
+		if _, f, _, ok := FieldOf(sl.X); ok {
+			return f
+		}
+	}
+	return typeName(s.X.Type())
+}
+
+func c11GuardRules(c *c11ctx) {
+	p, r := c.p, c.r
+	t := requestTaint(p, c.rv)
+	inv := DeriveLenInvariants(p, runPhaseFuncs(p, c.rv))
+	r.Notes = append(r.Notes, inv.Notes...)
+	eng := NewGuardEngine(p, t, inv)
+	var hs []string
+	for _, h := range requestHandlers(p, c.rv) {
+		hs = append(hs, FuncName(h))
+	}
+	r.Notes = append(r.Notes, "C11.R3 taint roots: argument of "+strings.Join(hs, ", "))
+	var fk []string
+	for k := range t.fields {
+		fk = append(fk, k.String())
+	}
+	sort.Strings(fk)
+	r.Notes = append(r.Notes, "C11.R3 request-written fields followed outside the per-channel pipeline: "+strings.Join(fk, ", "))
+	for _, fn := range t.TaintedFuncs() {
+		sinks := t.Sinks(fn)
+		if len(sinks) == 0 {
+			continue
+		}
+		r.Fn(FuncName(fn))
+		g := eng.Ctx(fn)
+		for _, s := range sinks {
+			r.CallSites++
+			for _, goal := range g.SinkGoals(s) {
+				cons := fmt.Sprintf("%s of %s in %s: %s", s.Kind, sinkContainer(s), FuncName(fn), goal.What)
+				o := eng.Discharge(fn, goal.P, goal.NE, s.Instr, 0, map[string]bool{})
+				if o.OK {
+					r.OK("C11.R3", cons, p.InstrPos(s.Instr), strings.Join(o.Trail, "; "))
+				} else {
+					r.Bad("C11.R3", cons, p.InstrPos(s.Instr), fmt.Sprintf("request-derived value (%s) reaches this use without a dominating guard for `%s`: %s", t.vals[s.V], goal.What, strings.Join(o.Trail, "; ")))
+				}
+			}
+		}
+	}
+}
